@@ -11,6 +11,8 @@
 #include <cstring>
 #include <cstdlib>
 #include <memory>
+#include <functional>
+#include <string_view>
 
 namespace {
 using namespace sim;
@@ -18,10 +20,10 @@ using ipr::util::word_view;
 
 enum Probe { P_pool_standalone, P_pool_lexicon, P_interns, P_new_words, P_repeat_hits, P_reserved, P_near_miss, P_empty,
              P_rollover, P_exact_fill, P_oversize, P_granule_boundary, P_nul_bytes, P_unterminated_src, P_rereads,
-             P_pools_coexist, P_pool_dropped, P_fault_cfg, P_fault_fired, P_fault_retry_ok, P_reuse, P_count };
+             P_pools_coexist, P_pool_dropped, P_fault_cfg, P_fault_fired, P_fault_retry_ok, P_reuse, P_hash_collisions, P_count };
 
 enum OpCode { OpIntern = 0, OpReread = 1, OpNewPool = 2, OpDropPool = 3, OpFill = 4 };
-enum WordClass { WRandom = 0, WGranule = 1, WReserved = 2, WNearMiss = 3, WHuge = 4, WRepeat = 5, WNeighbour = 6, WClassCount = 7 };
+enum WordClass { WRandom = 0, WGranule = 1, WReserved = 2, WNearMiss = 3, WHuge = 4, WRepeat = 5, WNeighbour = 6, WCollide = 7, WClassCount = 8 };
 
 constexpr long headers_per_pool = 16L << 12;      // util::string::arena::bufsz (mirrors the source; used for targeting only)
 
@@ -64,6 +66,37 @@ std::vector<Reserved> reserved_table(ipr::impl::Lexicon& lex)
       if (auto id = ipr::util::view<ipr::Identifier>(lex.get_this(L.int_type()).name())) add(id->string());
    }
    return t;
+}
+
+// Equal-hash, equal-length neighbours: libstdc++'s std::hash over bytes is a 64-bit Murmur variant whose block
+// mixing is invertible, so a second word with the same hash is constructed by changing the first 8-byte block and
+// solving for the second.  The construction is verified with std::hash itself; if the library's hash is a different
+// one the pair is simply not used.
+namespace collide {
+   constexpr uint64_t mul = (uint64_t(0xc6a4a793UL) << 32) + 0x5bd1e995UL;
+   constexpr uint64_t seed = 0xc70f6907UL;
+   constexpr uint64_t shift_mix(uint64_t v) { return v ^ (v >> 47); }
+   constexpr uint64_t inverse(uint64_t a) { uint64_t x = a; for (int i = 0; i < 6; ++i) x *= 2 - a * x; return x; }
+   constexpr uint64_t inv_mul = inverse(mul);
+   static_assert(mul * inv_mul == 1);
+   inline uint64_t d(uint64_t k) { return shift_mix(k * mul) * mul; }
+   inline uint64_t inv_d(uint64_t x) { return shift_mix(x * inv_mul) * inv_mul; }
+   inline uint64_t load(const std::string& w, size_t at) { uint64_t k; std::memcpy(&k, w.data() + at, 8); return k; }
+   // returns a word different from `a` (same length >= 16) with the same std::hash, or "" when that cannot be confirmed
+   inline std::string partner(const std::string& a)
+   {
+      if (a.size() < 16) return "";
+      std::string b = a;
+      b[0] = char(b[0] ^ 0x5a);
+      const uint64_t h0 = seed ^ (uint64_t(a.size()) * mul);
+      const uint64_t h1a = (h0 ^ d(load(a, 0))) * mul;
+      const uint64_t h1b = (h0 ^ d(load(b, 0))) * mul;
+      const uint64_t b1 = inv_d(d(load(a, 8)) ^ h1a ^ h1b);
+      std::memcpy(&b[8], &b1, 8);
+      auto hash = [](const std::string& w) { return std::hash<std::u8string_view>{ }(std::u8string_view(reinterpret_cast<const char8_t*>(w.data()), w.size())); };
+      if (b == a or hash(a) != hash(b)) return "";
+      return b;
+   }
 }
 
 struct PoolBox {
@@ -122,7 +155,8 @@ struct C03 : Scenario {
    {
       return { "pool.standalone", "pool.lexicon", "interns", "new_words", "repeat_hits", "reserved_words", "near_misses", "empty_word",
                "pool_rollover", "exact_fill", "oversize_path", "granule_boundary", "nul_bytes", "unterminated_source", "full_rereads",
-               "pools_coexist", "pool_dropped", "fault.alloc_configured", "fault.alloc_fired_in_intern", "fault.retry_succeeded", "heap.reused_blocks" };
+               "pools_coexist", "pool_dropped", "fault.alloc_configured", "fault.alloc_fired_in_intern", "fault.retry_succeeded", "heap.reused_blocks",
+               "equal_hash_equal_length_neighbours" };
    }
    std::vector<std::string> assumptions() const override
    {
@@ -143,8 +177,9 @@ struct C03 : Scenario {
          Op o; o.code = OpIntern; o.a[0] = 0; o.a[1] = cls; o.a[2] = a; o.a[3] = b; o.a[4] = style; p.ops.push_back(o);
       };
       switch (i) {
-      case 0: case 1:   // every length 0..80 with all byte values
+      case 0: case 1:   // every length 0..80 with all byte values, then equal-hash equal-length neighbours of every length 16..63
          for (int n = 0; n <= 80; ++n) intern(WRandom, n, 1000 + n, n % 2);
+         for (int n = 0; n < 48; ++n) intern(WCollide, n, 77 + n, n % 2);
          break;
       case 2: case 3:   // every reserved word and four near misses of each
          for (int k = 0; k < 64; ++k) { intern(WReserved, k, 0); for (int v = 0; v < 4; ++v) intern(WNearMiss, k, v); }
@@ -214,6 +249,7 @@ struct C03 : Scenario {
             case WHuge: o.a[2] = int64_t(r.below(8)); o.a[3] = int64_t(r.below(4)); break;
             case WRepeat: o.a[2] = int64_t(r.below(64)); break;
             case WNeighbour: o.a[2] = int64_t(r.below(64)); o.a[3] = int64_t(r.below(256)); break;
+            case WCollide: o.a[2] = int64_t(16 + r.below(40)); o.a[3] = int64_t(r.below(1000)); break;
             }
             o.a[4] = int64_t(r.below(2));
             if (faults_left > 0 and r.chance(1, 6)) { o.fault = int(r.range(1, 3)); --faults_left; }
@@ -271,6 +307,10 @@ struct C03 : Scenario {
          std::string w(size_t(n), char('A' + uint64_t(o.a[3]) % 26));
          for (size_t i = 0; i < w.size(); i += 4093) w[i] = char(i / 4093 + uint64_t(o.a[3]));
          return w;
+      }
+      case WCollide: {
+         size_t n = 16 + size_t(uint64_t(o.a[2]) % 48);
+         return random_bytes(n);
       }
       case WRepeat:
          if (seen.empty()) return "first";
@@ -467,6 +507,16 @@ struct C03 : Scenario {
             PoolBox& pb = pools[size_t(uint64_t(op.a[0]) % pools.size())];
             std::string word = make_word(op, reserved, seen, ctx);
             if (Verdict v = do_intern(pb, word, int(op.a[4] & 1), op.fault, step); not v) return v;
+            if (((op.a[1] % WClassCount) + WClassCount) % WClassCount == WCollide) {
+               // the equal-hash, equal-length partner, interned immediately afterwards
+               std::string partner = collide::partner(word);
+               if (not partner.empty()) {
+                  ctx.probe(P_hash_collisions);
+                  if (Verdict v = do_intern(pb, partner, int(op.a[4] & 1), 0, step); not v) return v;
+                  // and the first one again, right after its partner
+                  if (Verdict v = do_intern(pb, word, 0, 0, step); not v) return v;
+               }
+            }
             break;
          }
          }
@@ -489,14 +539,14 @@ struct C03 : Scenario {
 
    std::string describe(const Op& o) const override
    {
-      static const char* cls[] = { "random", "granule", "reserved", "near-miss", "huge", "repeat", "neighbour" };
+      static const char* cls[] = { "random", "granule", "reserved", "near-miss", "huge", "repeat", "neighbour", "hash-collision-pair" };
       switch (((o.code % 5) + 5) % 5) {
       case OpNewPool: return o.a[0] % 2 ? "new-pool(lexicon)" : "new-pool(standalone)";
       case OpDropPool: return "drop-pool(" + std::to_string((long long) o.a[0]) + ")";
       case OpReread: return "reread-all";
       case OpFill: return "fill(pool " + std::to_string((long long) o.a[0]) + ", mode " + std::to_string((long long) (uint64_t(o.a[1]) % 3)) + ")";
       default: {
-         std::string s = std::string("intern(pool ") + std::to_string((long long) o.a[0]) + ", " + cls[((o.a[1] % 7) + 7) % 7] + ", " +
+         std::string s = std::string("intern(pool ") + std::to_string((long long) o.a[0]) + ", " + cls[((o.a[1] % 8) + 8) % 8] + ", " +
             std::to_string((long long) o.a[2]) + ", " + std::to_string((long long) o.a[3]) + (o.a[4] & 1 ? ", unterminated-view" : "") + ")";
          if (o.fault) s += "!alloc#" + std::to_string(o.fault);
          return s;
